@@ -269,3 +269,20 @@ impl<T: Config> SpectatorSession<T> {
         }
     }
 }
+
+#[cfg(feature = "verif-hooks")]
+impl<T: Config> SpectatorSession<T> {
+    /// Verification hook: newest frame received from the host.
+    pub fn verif_last_recv_frame(&self) -> Frame {
+        self.last_recv_frame
+    }
+
+    /// Verification hook: sizes of all internal buffers.
+    pub fn verif_buffers(&self) -> crate::verif_hooks::SessionBuffers {
+        crate::verif_hooks::SessionBuffers {
+            event_queue: self.event_queue.len(),
+            endpoints: vec![self.host.verif_buffers(false)],
+            ..Default::default()
+        }
+    }
+}
